@@ -262,7 +262,13 @@ def fault(ctx, phases=None, kinds=None, cancel=False):
                 return fail("connection-left-open-after-timeout-or-cancel")
     if connector._acquired:
         return fail("pool-slot-not-freed", acquired=len(connector._acquired))
-    alive = [t for t in asyncio.all_tasks(loop) if not t.done() and t is not t1] if False else []
+    # no background task of the ended request keeps running (body writer, connect attempt, ...)
+    if not first_ok:
+        loop.run_ready()
+        alive = [t for t in asyncio.all_tasks(loop) if not t.done() and t is not t1 and t is not holder]
+        if alive:
+            return fail("background-task-left-running-after-timeout-or-cancel",
+                        tasks=[str(getattr(t.get_coro(), "__qualname__", t.get_coro()))[:80] for t in alive][:4])
     # ---- the session stays usable; idle time first (stale timers must not fire on pooled connections)
     if idle:
         loop.advance(idle)
